@@ -92,6 +92,18 @@ chk("C10",
     "blocks of the factorisation (their own correctness is C04 / scipy's). Window lengths on the half-interval lattice only.",
     "TLA+ kernel spec (Split, PreOrder) model-checked with TLC; one implementation test per TLC case; factorisation replay", "DESIGN.md#c10")
 
+chk("C02",
+    "The kernels are transcribed from the publications as tables of offset classes with exact rational weights (nice abscissae of the "
+    "sinc^4 kernels: weights 81, 64, 729/16, 16, 729/256, 64/81, 81/625 over pi^4, zeros at k pi; classes just inside/outside the "
+    "limits of the rectangular and triangular kernels; integer Savitzky-Golay coefficients). TLC checks on every subset of classes "
+    "constant reproduction, linearity, between-min-and-max, zero-iff-empty, and cubic reproduction for S-G, and exports exact values; "
+    "every case is evaluated with the compiled operator and with its interpreted source on real frequency vectors (several bandwidths, "
+    "centres, FFT grids with the 0 Hz bin, off-grid/below/above centres), rows stacked and alone.",
+    "Trusted: TLC; the kernel tables in spec/SmoothingMC.tla. Kernel shape is verified at the nice abscissae (7 per side and the zeros), "
+    "not on a continuum; samples beyond Konno-Ohmachi's cut-off, S-G windows touching the first grid point and the 0 Hz bin inside a "
+    "linear window are implementation-tier only; 'compiled = interpreted' is decided on the enumerated inputs.",
+    "TLA+ kernel specs (Smoothing, SavGol, SmoothGrid) model-checked with TLC; one implementation test per TLC case, compiled and interpreted", "DESIGN.md#c02")
+
 def main():
     man = dict(
         version=1,
